@@ -19,6 +19,7 @@ from __future__ import annotations
 import ast, builtins, functools, inspect, operator, os, sys, types
 from . import sym as S
 from .sym import SInt, SBool, SReal, OStr, Unsupported, PathInfeasible, PathEnd
+from .srange import SRange
 
 
 class ProgExc(Exception):
@@ -120,6 +121,12 @@ def _walk_defs(body):
                 yield from _walk_defs(getattr(st, fld, []) or [])
             for h in getattr(st, "handlers", []) or []:
                 yield from _walk_defs(h.body)
+
+
+def _idx_concrete(idx):
+    if isinstance(idx, slice):
+        return deep_concrete(idx.start) and deep_concrete(idx.stop) and deep_concrete(idx.step)
+    return deep_concrete(idx)
 
 
 def _argnames(a):
@@ -873,6 +880,11 @@ class Interp:
         return self.format(self.ev(e.value, frame), "")
 
     def to_str(self, v):
+        if isinstance(v, Opaque):
+            # a schematic leaf prints as its own unique name: two leaves print
+            # alike only if they are the same object (contracts that rely on
+            # this state it as an assumption)
+            return repr(v)
         if deep_concrete(v):
             st = type(v).__dict__.get("__str__") if not isinstance(v, type) else None
             if st is not None and self.is_repo_fn(st):
@@ -1055,6 +1067,9 @@ class Interp:
         f = self._repo_dunder(container, "__contains__")
         if f is not None:
             return self.call(f, [container, item])
+        if isinstance(container, SRange) or (isinstance(container, range) and container.step == 1
+                                             and isinstance(item, (SInt, SBool))):
+            return SRange.of(container).contains(item)
         if isinstance(container, (list, tuple)) and not deep_concrete(item) or \
                 (isinstance(container, (list, tuple)) and not deep_concrete(container)):
             # element-wise ==, through interpreted __eq__ where the repo defines one
@@ -1160,6 +1175,13 @@ class Interp:
         f = self._repo_dunder(v, "__iter__")
         if f is not None:
             return self.call(f, [v])
+        if isinstance(v, SRange):
+            # decide the length on this path (fork), up to the unroll bound
+            n = v.length()
+            for k in range(self.loop_unroll + 1):
+                if S.cur().branch(S.liftb(n == k)):
+                    return iter([v.start + j for j in range(k)])
+            raise Unsupported(f"iteration over a symbolic range longer than {self.loop_unroll}")
         if isinstance(v, (SInt, SBool)):
             raise ProgExc(TypeError("int object is not iterable"))
         return self.native(iter, v)
@@ -1225,9 +1247,40 @@ class Interp:
                 if S.cur().branch(S.liftb(S.Or(idx == k, idx == k - n))):
                     return obj[k]
             raise ProgExc(IndexError("list index out of range"))
-        if isinstance(idx, slice) and not deep_concrete(idx):
+        if isinstance(obj, SRange) or (isinstance(obj, range) and obj.step == 1
+                                       and not _idx_concrete(idx)):
+            return self.native(operator.getitem, SRange.of(obj), idx)
+        if isinstance(idx, slice) and not (deep_concrete(idx.start) and deep_concrete(idx.stop)
+                                           and deep_concrete(idx.step)):
+            if isinstance(obj, (list, tuple)) and idx.step in (None, 1):
+                # concrete-length sequence, symbolic bounds: fork on the
+                # (clipped) value of each bound
+                n = len(obj)
+                lo = self._slice_bound(idx.start, n, 0)
+                hi = self._slice_bound(idx.stop, n, n)
+                return obj[lo:hi]
             raise Unsupported("slice with symbolic bounds")
         return self.native(operator.getitem, obj, idx)
+
+    def _slice_bound(self, b, n, default):
+        if b is None:
+            return default
+        if isinstance(b, int) and not isinstance(b, bool):
+            return b
+        if not isinstance(b, (SInt, SBool)):
+            raise ProgExc(TypeError("slice indices must be integers or None"))
+        ctx = S.cur()
+        for k in range(n + 1):
+            # Python: b<0 -> max(b+n,0), else min(b,n)
+            if k == 0:
+                c = S.Or(b == 0, b <= -n)
+            elif k == n:
+                c = b >= n
+            else:
+                c = S.Or(b == k, b == k - n)
+            if ctx.branch(S.liftb(c)):
+                return k
+        raise PathInfeasible()
 
     def setitem(self, obj, idx, val):
         f = self._repo_dunder(obj, "__setitem__")
@@ -1287,6 +1340,8 @@ def py_isinstance(v, c):
         return c in (float, object)
     if isinstance(v, OStr):
         return c in (str, object)
+    if isinstance(v, SRange):
+        return isinstance(c, type) and (issubclass(range, c) or c is SRange)
     if isinstance(v, Opaque):
         sort = v._pyvc_sort
         if isinstance(c, type) and issubclass(sort, c):
@@ -1311,6 +1366,8 @@ def _sp_type(it, args, kw):
         return float
     if isinstance(v, OStr):
         return str
+    if isinstance(v, SRange):
+        return range
     if isinstance(v, Opaque):
         raise Unsupported("type() of a schematic leaf")
     return type(v)
@@ -1390,6 +1447,8 @@ def _sp_len(it, args, kw):
     f = it._repo_dunder(v, "__len__")
     if f is not None:
         return it.call(f, [v])
+    if isinstance(v, SRange):
+        return v.length()
     return it.native(len, v)
 
 def _sp_sum(it, args, kw):
@@ -1413,7 +1472,9 @@ def _sp_any(it, args, kw):
 
 def _sp_range(it, args, kw):
     if any(isinstance(a, (SInt, SBool)) for a in args):
-        raise Unsupported("range() over a symbolic bound (needs an invariant)")
+        if len(args) <= 2 or (isinstance(args[2], int) and args[2] == 1):
+            return SRange(*args[:2])
+        raise Unsupported("range() over a symbolic bound with a step")
     return it.native(range, *args)
 
 def _sp_getattr(it, args, kw):
